@@ -95,7 +95,7 @@ def _instance(spec, emit, name, rng, base, first):
         X = sprinkle_empty_columns(rng, X)
     groups = C.make_groups(rng, p, style=str(rng.choice(["contig", "perm"])))
     n_tasks = int(rng.integers(1, 4))
-    y = C.make_target(rng, X, C.TARGET_KIND[name], n_tasks=n_tasks, ties=bool(rng.integers(0, 2)))
+    y = C.make_target(rng, X, C.TARGET_KIND[name], n_tasks=n_tasks, ties=[False, True, "nonadjacent"][int(rng.integers(0, 3))])
     opts = {}
     if name == "WeightedQuadratic":
         sw = rng.uniform(0.1, 3.0, size=n)
